@@ -20,6 +20,7 @@ CONSTANTS
   Retargets = {FALSE}
   AlignOpts = {0}
   Aliases = {TRUE}
+  SharedRet = {FALSE}
   InsFns = {"none"}
   Emit = TRUE
 INVARIANT Inv
